@@ -434,3 +434,16 @@ func runReplay(t *testing.T, pkg, prop, tier, path string, cells []cellReg) {
 		}
 	}
 }
+
+// Unblock wakes every goroutine parked in a shim lock (they exit), so that an
+// execution in which a deadlock was detected can still be torn down. Returns the
+// number of goroutines that were parked.
+func Unblock() int64 {
+	n := core.Parked()
+	core.Abort()
+	synctest.Wait()
+	return n
+}
+
+// Parked is the number of goroutines currently parked in shim locks.
+func Parked() int64 { return core.Parked() }
